@@ -134,7 +134,7 @@ def ttsvd(E, s):
     err2 = tn.sum(diff * diff)
     nrm2 = tn.sum(Ad * Ad)
     maxrank = max([1] + [min(prod(umodes[:k]), prod(umodes[k:])) for k in range(1, d)])
-    bound_ok = err2.item() <= (eps * eps) * nrm2.item() * (1 + DELTA)
+    bound_ok = err2.item() <= ((eps * eps) * (1 + DELTA) + 1e-26) * nrm2.item()
     if rmax is None:
         E.true('accuracy', bound_ok)
     elif rmax == 'sym':
